@@ -191,8 +191,9 @@ public:
     constexpr range_t& operator-=(const range_t& o)
     {
         assert(!o.empty());
+        const T low = o.first();  // o may be *this (r -= r): read it before start changes
         start -= o.last();
-        finish -= o.first();
+        finish -= low;
         return *this;
     }
 
